@@ -335,6 +335,29 @@ theorem namesValid_foldl (parts : List String) (e : Expr) (he : namesValid e = t
     · simp [namesValid, he, hp p (by simp)]
     · intro q hq; exact hp q (by simp [hq])
 
+/-- An `IsInstanceAssertion` among what `_check_value` records is about the observed value's own type,
+and `_is_type_importable` accepted that type. -/
+theorem mem_checkValue_isInstance (te : TypeEnv) (src : String) (v : AVal) (src' : String) (t : TypeId)
+    (h : Assertion.isInstance src' t ∈ checkValue te src v) :
+    src' = src ∧ t = v.typeOf ∧ isTypeImportable te t = true := by
+  have key : Assertion.isInstance src' t ∈ checkTypeAndLen te src v →
+      src' = src ∧ t = v.typeOf ∧ isTypeImportable te t = true := by
+    intro h
+    simp only [checkTypeAndLen, List.mem_append] at h
+    rcases h with h | h
+    · split at h
+      · rename_i himp
+        simp only [List.mem_singleton, Assertion.isInstance.injEq] at h
+        exact ⟨h.1, h.2, h.2 ▸ himp⟩
+      · simp at h
+    · cases hl : v.len? <;> simp [hl] at h
+  unfold checkValue at h
+  split at h
+  · simp at h
+  · split at h
+    · simp at h
+    · exact key h
+
 /-- The dotted path the rendered type expression denotes. -/
 def typePath (env : RenderEnv) (t : TypeId) : List String :=
   if t.module = "builtins" then [joinDots t.qual] else env.alias t.module :: t.qual
